@@ -4,6 +4,8 @@ import MJ.Proofs.Nesting
 import MJ.Proofs.Scopes
 import MJ.Proofs.Sites
 import MJ.Proofs.KStack
+import MJ.Proofs.IntOps
+import MJ.Proofs.ReprStr
 import MJ.Model.PanicSites
 import MJ.Model.CallGraph
 import MJ.Props.C09
@@ -1140,12 +1142,65 @@ theorem panic_evidence_given : PanicSites.evidenceGiven = true := by decide +ker
 
 /-- (rows, sites) per class: a proved, b guarded (tabled), c outside the quantifier, d oracle only -/
 theorem panic_site_class_counts :
-    (PanicSites.rowsOf .a, PanicSites.sitesOf .a) = (54, 117) ∧
-    (PanicSites.rowsOf .b, PanicSites.sitesOf .b) = (28, 38) ∧
+    (PanicSites.rowsOf .a, PanicSites.sitesOf .a) = (65, 139) ∧
+    (PanicSites.rowsOf .b, PanicSites.sitesOf .b) = (27, 36) ∧
     (PanicSites.rowsOf .c, PanicSites.sitesOf .c) = (20, 27) ∧
-    (PanicSites.rowsOf .d, PanicSites.sitesOf .d) = (170, 317) := by decide +kernel
+    (PanicSites.rowsOf .d, PanicSites.sitesOf .d) = (159, 291) := by decide +kernel
 
 example : PanicSites.rows.length > 200 ∧ Gen.panicSites.length = PanicSites.rows.length := by decide +kernel
+
+/-! ## Integer arithmetic of the VM (`value/ops.rs`, `filters::abs`): `MJ/Model/IntOps.lean` -/
+
+/-- the `Add / Sub / Mul / Rem / IntDiv / Pow / Neg` arms of the VM and the `abs` filter never panic on
+    integers, whatever their width and sign — for ALL pairs of integers (no range hypothesis is needed:
+    every plain operator sits behind a guard that makes it fit) -/
+theorem intOps_no_panic (op : IntOps.Op) (a b : Int) :
+    IntOps.binK op a b ≠ .panic ∧ IntOps.negK a ≠ .panic ∧ IntOps.absK a ≠ .panic :=
+  ⟨IntOps.binK_no_panic op a b, IntOps.negK_no_panic a, IntOps.absK_no_panic a⟩
+
+/-- a value returned by `+ - * // %` is the exact mathematical result (Euclidean division) and, for
+    `+ - * //`, fits an `i128`; division and remainder by zero are errors -/
+theorem intOps_exact (a b v : Int) :
+    (IntOps.binK .add a b = .ok (.val v) → v = a + b ∧ IntOps.fits128 v = true) ∧
+    (IntOps.binK .sub a b = .ok (.val v) → v = a - b ∧ IntOps.fits128 v = true) ∧
+    (IntOps.binK .mul a b = .ok (.val v) → v = a * b ∧ IntOps.fits128 v = true) ∧
+    (IntOps.binK .intDiv a b = .ok (.val v) → b ≠ 0 ∧ v = a / b ∧ IntOps.fits128 v = true) ∧
+    (IntOps.binK .rem a b = .ok (.val v) → b ≠ 0 ∧ v = a % b) :=
+  ⟨IntOps.checkedBin_exact _ a b v, IntOps.checkedBin_exact _ a b v, IntOps.checkedBin_exact _ a b v,
+   IntOps.intDivK_exact a b v, IntOps.remK_exact a b v⟩
+
+-- non-vacuity: the corner the guards exist for, and what the plain operators would do there
+example : IntOps.binK .rem IntOps.i128Min (-1) = .ok (.val 0) := by decide
+example : IntOps.binK .intDiv IntOps.i128Min (-1) = .ok .err := by decide
+example : IntOps.i128 (IntOps.i128Min / -1) = .panic := by decide
+example : IntOps.binK .pow (-1) 4294967297 = .ok (.val (-1)) := by decide
+example : IntOps.binK .pow 2 127 = .ok .err ∧ IntOps.binK .pow 2 126 = .ok (.val 85070591730234615865843651857942052864) := by decide
+example : IntOps.absK IntOps.i64Min = .ok (.val 9223372036854775808) ∧ IntOps.absK IntOps.i128Min = .ok .err := by decide
+example : IntOps.negK IntOps.i128Min = .ok .err ∧ IntOps.negK 5 = .ok (.val (-5)) := by decide
+example : IntOps.binK .add IntOps.u128Max 0 = .ok .err := by decide
+
+/-! ## The repr of a string (`value/mod.rs: python_string_debug_fmt`): `MJ/Model/ReprStr.lean` -/
+
+/-- for EVERY string and EVERY escaping rule, each flush `&value[last..idx]` and the final
+    `&value[last..]` is a slice between character boundaries with `last <= idx <= len`: the repr of a
+    string (element of a printed list / map, error messages) never panics -/
+theorem reprStr_no_panic (esc : Char → Bool) (s : List Char) : ReprStr.reprK esc s ≠ .panic :=
+  ReprStr.reprK_no_panic esc s
+
+-- non-vacuity: continuing one BYTE behind an escaped character (instead of `len_utf8`) slices inside
+-- a two-byte control character (the seeded change C01-6)
+example : ReprStr.reprWith (ReprStr.escapes '\'') (fun _ => 1) ['\u0085', 'a'] = .panic := by decide
+example : ReprStr.reprOut ['\u0085', 'a', '\'', 'é'] = .ok 10 := by decide
+
+/-- the static argument count of every call the parser accepts fits the `u16` of the call instructions:
+    `assert!(pending_args as u16 as usize == pending_args)` of `compile_call_args` cannot fail (the
+    parser's limit is regenerated from `parse_args`; raising it beyond 65533 breaks this theorem) -/
+theorem callArgs_fit_u16 (extra nPos : Nat) (kw : Bool) (he : extra ≤ 1) (hn : nPos ≤ Gen.parserMaxArgs) :
+    IntOps.callArgCountK extra nPos kw ≠ .panic :=
+  IntOps.callArgCountK_no_panic extra nPos kw he hn (by decide)
+
+example : IntOps.callArgCountK 1 Gen.parserMaxArgs true = .ok (Gen.parserMaxArgs + 2) := by decide
+example : IntOps.callArgCountK 0 65536 false = .panic := by decide
 
 /-- the full statement fails exactly through the `elif` recursion: while `parse_if_cond` calls itself
     outside the guard, not every cycle is guarded (witness replayed by the depth probe `d elif n`) -/
@@ -1162,5 +1217,109 @@ example : elifEdge ∈ parserGraph.edges ∧ ifCondIdx < parserGraph.n := by dec
 /-- C01 with the excluded region explicit: all kernels, and the parser outside `elif` -/
 theorem C01_partial : KernelsNeverPanic ∧ runBound parserGraphNoElif maxUnguardedRun = true :=
   ⟨kernels_never_panic, parser_cycles_guarded⟩
+
+/-! ## The property as stated, and the gap between it and what is proved: `C01_statement`, `C01_main` -/
+
+/-- how one call of the engine (load + render / compile_expression + eval / formatting the error) ends -/
+inductive End where
+  | value                       -- `Ok(output)`
+  | error                       -- `Err(minijinja::Error)`
+  | panic (site : String)       -- a Rust panic (incl. arithmetic overflow in a build with overflow checks);
+                                -- `site` = the `file::function::kind` row it originates from, or "callee"
+                                -- for a panic raised inside std / a dependency
+  | stackOverflow               -- native stack exhausted (SIGSEGV / SIGABRT)
+  | allocAbort                  -- the allocator refuses a size the template chose (abort)
+  deriving DecidableEq, Repr
+
+/-- the engine as the property sees it.  `I` is the property's quantifier: template source (any byte
+    string) x companion templates x context value x builtin called with arbitrary arguments x
+    configuration (syntax, whitespace switches, undefined behaviour, …) x {debug, release} profile x
+    {main thread, 2 MiB thread} -/
+structure Engine (I : Type) where
+  run : I → End
+
+/-- **C01 at full strength**: for every input, loading and rendering either succeeds or returns an
+    error value — it never panics, overflows the native stack or aborts in the allocator. -/
+def C01_statement {I : Type} (E : Engine I) : Prop :=
+  ∀ i, E.run i = .value ∨ E.run i = .error
+
+/-- class of a site key in the hand classification (`none`: not a row) -/
+def classOf (s : String) : Option PanicSites.Cls :=
+  (PanicSites.rows.find? (·.key == s)).map (·.cls)
+
+/-- **The gap**, one named field per assumption.  Nothing here is proved about the real engine: these
+    are exactly the statements that the checked correspondence / the crash oracle validate and that the
+    theorems of this file discharge *for the models*. -/
+structure Gaps {I : Type} (E : Engine I) : Prop where
+  /-- TRUSTED (syntactic scanner `lib/tables/c01.py: PANIC_SITES`): a panic of the crate's own code
+      originates at a key of the REGENERATED site table; every other panic is a callee's -/
+  sites_complete : ∀ i s, E.run i = .panic s → s = "callee" ∨ s ∈ PanicSites.genKeyed.map (·.1)
+  /-- class a — the named kernel theorem shows the site unreachable IN THE MODEL; the gap is
+      "model = code", validated by the kernel correspondence streams (boundary boxes, `drive_c01`) and
+      by translation validation of the instruction streams -/
+  classA_model_is_code : ∀ i s, E.run i = .panic s → classOf s ≠ some .a
+  /-- class b — the guard in the same function (its text is tied: `panic_guards_as_tabled`) is adequate:
+      a hand judgement per row -/
+  classB_guard_adequate : ∀ i s, E.run i = .panic s → classOf s ≠ some .b
+  /-- class c — outside the quantifier (poisoned mutex = an earlier panic, host-side macros, …) -/
+  classC_outside_quantifier : ∀ i s, E.run i = .panic s → classOf s ≠ some .c
+  /-- class d — VALIDATED ONLY: nothing but the crash-oracle streams stands behind these sites -/
+  classD_searched : ∀ i s, E.run i = .panic s → classOf s ≠ some .d
+  /-- VALIDATED ONLY: panics inside std / dependencies (slice::copy_from_slice, RefCell, fmt with an
+      out-of-range argument, …) — crash-oracle streams -/
+  callee_searched : ∀ i, E.run i ≠ .panic "callee"
+  /-- VALIDATED ONLY (depth probes, accumulate-loop probes on a 256 KiB stack): the native stack.  Proved
+      parts it rests on: `parser_cycles_guarded`, `ast_depth_bound`, `mergeSeq_depth_bounded`;
+      recorded exceptions: KNOWN_FINDINGS elif / cyclic namespace / run-time nesting / lazy slices -/
+  stack_searched : ∀ i, E.run i ≠ .stackOverflow
+  /-- proved for the kernels (`*_alloc_le`, `limits_fit_2GiB`), validated for everything else under a
+      2 GiB address-space cap -/
+  alloc_bounded : ∀ i, E.run i ≠ .allocAbort
+
+/-- **C01, main theorem**: the statement follows from the gap hypotheses and the tie between the
+    regenerated site table and the classification (`all_panic_sites_classified`, proved above): every
+    site the scanner finds has a class, every class has its hypothesis. -/
+theorem C01_from_gaps {I : Type} (E : Engine I) (G : Gaps E)
+    (hTie : PanicSites.genKeyed = PanicSites.keyed PanicSites.rows) : C01_statement E := by
+  intro i
+  cases h : E.run i with
+  | value => exact Or.inl rfl
+  | error => exact Or.inr rfl
+  | stackOverflow => exact absurd h (G.stack_searched i)
+  | allocAbort => exact absurd h (G.alloc_bounded i)
+  | panic s =>
+    exfalso
+    rcases G.sites_complete i s h with hc | hm
+    · subst hc; exact G.callee_searched i h
+    · -- the site is a row of the classification, hence has a class
+      rw [hTie] at hm
+      simp only [PanicSites.keyed, List.map_map, List.mem_map, Function.comp] at hm
+      obtain ⟨r, hr, hk⟩ := hm
+      have hfind : ∃ r', PanicSites.rows.find? (·.key == s) = some r' := by
+        cases hf : PanicSites.rows.find? (·.key == s) with
+        | some r' => exact ⟨r', rfl⟩
+        | none =>
+          have := List.find?_eq_none.1 hf r hr
+          simp [hk] at this
+      obtain ⟨r', hr'⟩ := hfind
+      have hcls : classOf s = some r'.cls := by simp [classOf, hr']
+      cases hc : r'.cls with
+      | a => exact G.classA_model_is_code i s h (by rw [hcls, hc])
+      | b => exact G.classB_guard_adequate i s h (by rw [hcls, hc])
+      | c => exact G.classC_outside_quantifier i s h (by rw [hcls, hc])
+      | d => exact G.classD_searched i s h (by rw [hcls, hc])
+
+theorem C01_main {I : Type} (E : Engine I) (G : Gaps E) : C01_statement E :=
+  C01_from_gaps E G all_panic_sites_classified
+
+-- non-vacuity: an engine that only ever returns values / errors satisfies the gaps; one that panics at a
+-- class-d row violates exactly `classD_searched`, and the statement is false for it
+example : Gaps (⟨fun (b : Bool) => if b then .value else .error⟩ : Engine Bool) :=
+  ⟨by intro i s h; cases i <;> simp at h, by intro i s h; cases i <;> simp at h, by intro i s h; cases i <;> simp at h,
+   by intro i s h; cases i <;> simp at h, by intro i s h; cases i <;> simp at h, by intro i; cases i <;> simp,
+   by intro i; cases i <;> simp, by intro i; cases i <;> simp⟩
+example : classOf "value/ops.rs::pow::arith" = some .a ∧ classOf "no/such::row" = none := by decide +kernel
+example : ¬ C01_statement (⟨fun (_ : Unit) => .panic "vm/mod.rs::Executor::perform_super::unwrap"⟩ : Engine Unit) := by
+  intro h; rcases h () with h | h <;> simp at h
 
 end MJ.C01
